@@ -55,26 +55,26 @@ type KnownFile struct {
 }
 
 type Run struct {
-	Prop      string
-	Tier      string
-	Seed      int64
-	Start     time.Time
-	Obs       []Obligation
-	Analysed  map[string]int // free-form counters: packages, functions, call sites, ...
-	Rules     map[string]string
-	Assume    []string
-	Explain   string
-	NotCov    string
-	Exhaust   map[string]bool // rules that enumerated a finite space completely
-	undecided []string
-	Variants  []VariantResult
+	Prop           string
+	Tier           string
+	Seed           int64
+	Start          time.Time
+	Obs            []Obligation
+	Analysed       map[string]int // free-form counters: packages, functions, call sites, ...
+	Rules          map[string]string
+	Assume         []string
+	Explain        string
+	NotCov         string
+	Exhaust        map[string]bool // rules that enumerated a finite space completely
+	undecided      []string
+	Variants       []VariantResult
+	VariantSummary string
 }
 
 type VariantResult struct {
 	Name   string `json:"name"`
-	Rule   string `json:"rule"`
-	Status string `json:"status"` // detected | MISSED | not-applicable
-	Detail string `json:"detail,omitempty"`
+	Rule   string `json:"first_report,omitempty"`
+	Status string `json:"status"` // detected | missed | not-applicable | does-not-type-check
 }
 
 func NewRun(prop, tier string) *Run {
@@ -177,13 +177,6 @@ func (r *Run) Finish() int {
 		}
 		perRule[o.Rule] = c
 	}
-	for _, v := range r.Variants {
-		if v.Status == "MISSED" {
-			// A seeded variant the checker no longer detects means the checker lost power; that is
-			// a defect of /verif, not of /repo: warn, never VIOLATION.
-			fmt.Printf("WARNING property=%s seeded variant not detected: %s (%s) %s\n", r.Prop, v.Name, v.Rule, v.Detail)
-		}
-	}
 	// evidence
 	type ruleSum struct {
 		Rule        string `json:"rule"`
@@ -250,7 +243,8 @@ func (r *Run) Finish() int {
 		"trusted_base":        []string{"go/types, go/ssa (x/tools v0.29.0)", "reference tables in gcv/internal/props (oracle)", "the rule tables and one-line exceptions in gcv/internal/props"},
 	}
 	if len(r.Variants) > 0 {
-		cov["seeded_variants"] = r.Variants
+		cov["variants"] = r.Variants
+		cov["variants_summary"] = r.VariantSummary
 	}
 	if len(r.undecided) > 0 {
 		cov["undecided"] = r.undecided
